@@ -56,6 +56,20 @@ pub fn run(ctx: &mut Ctx) {
         let vt = vt3[(case / 8) as usize].clone();
         ctx.run_case("exh3", case, move |ctx, _rng| exhaustive3(ctx, &vt, (case % 8) as usize));
     }
+    // fault injection on hash quality (hook H6): node hashes fall into a few classes, the SDD
+    // tables must tell different nodes with one hash apart; both compression modes
+    for case in ctx.cases("weak_hash", 300, true) {
+        let c2 = checks.clone();
+        ctx.run_case("weak_hash", case, move |ctx, rng| {
+            let mut cfg = random_sdd_cfg(rng, 6, true);
+            cfg.nops = if cfg.compress { rng.range(5, 50) } else { rng.range(4, 14) };
+            let ops = gen_sdd_history(cfg.n, cfg.nops, rng);
+            let w = crate::caps::WeakHash::new(Some(crate::caps::weak_classes(rng, &ctx.profile.clone(), false)), None);
+            run_sdd_history(ctx, &cfg, &ops, &c2);
+            ctx.count("histories_with_weak_hashes", 1);
+            ctx.count("unique_table_hash_clashes", w.clashes());
+        });
+    }
     // the same with the vtree's variables spread over up to 200 labels (label set with gaps,
     // 64/128 boundaries included)
     for case in ctx.cases("wide", 300, true) {
